@@ -1,11 +1,11 @@
-\* two concurrent readers whose compute and cache-fill steps interleave with updates (lastTopologyChange guard)
+\* a concurrent reader whose compute and cache-fill steps interleave with updates (lastTopologyChange guard)
 CONSTANTS
   Inst = {1, 2}
   Ident = {1}
   Sizes = {1}
   Lookbacks = {1}
   Times = {3, 4}
-  Readers = {1, 2}
+  Readers = {1}
   MaxUpd = 2
   ZoneAware = FALSE
   Addrs = {1, 2}
